@@ -275,10 +275,10 @@ def _gen_scale(rng):
         start = tms[0] - rng.randint(0, 100) * 1000 + rng.choice([0, 0, 137, 500])
         m = rng.choice([520, 900, 1700, 3000])
         req = [start + k * 1000 for k in range(m)]
-        return pts, tms, {"mode": mode, "arg": req, "entry": entry, "scale": 1}
+        return pts, tms, {"mode": mode, "arg": req, "entry": entry, "scale": 1, "limit_x": 4}
     if mode == "T-num":
-        return pts, tms, {"mode": mode, "arg": D / 1000.0 / rng.randint(600, 1900), "entry": entry, "scale": 1}
-    return pts, tms, {"mode": "S", "arg": L / rng.uniform(600, 1900), "entry": entry, "sub": "random", "scale": 1}
+        return pts, tms, {"mode": mode, "arg": D / 1000.0 / rng.randint(600, 1900), "entry": entry, "scale": 1, "limit_x": 4}
+    return pts, tms, {"mode": "S", "arg": L / rng.uniform(600, 1900), "entry": entry, "sub": "random", "scale": 1, "limit_x": 4}
 
 
 def cases(chunk):
